@@ -1,6 +1,7 @@
 package props
 
 import (
+	"bytes"
 	"fmt"
 	"strings"
 	"unicode/utf8"
@@ -25,7 +26,7 @@ var c15 = core.Register(&core.Prop{
 	Shards: func(tier string) int { return pickTier(tier, 8, 16) },
 	Floors: func(c map[string]int64, tier string) []string {
 		var out []string
-		for _, k := range []string{"nodes_checked", "reparsed_nodes", "error_strings_checked", "linetable_offsets", "crlf_at_end_texts"} {
+		for _, k := range []string{"nodes_checked", "reparsed_nodes", "error_strings_checked", "linetable_offsets", "crlf_at_end_texts", "buffer_reuse_texts"} {
 			if c[k] == 0 {
 				out = append(out, "coverage floor: no "+k)
 			}
@@ -323,6 +324,46 @@ var c15Lines = core.Mon(c15, "line-table", func(w *core.W, c *LineCase) {
 	}
 })
 
+// ReuseCase: texts of equal length written one after the other into ONE buffer.
+type ReuseCase struct {
+	Texts [][]byte `json:"texts"`
+}
+
+var c15Reuse = core.Mon(c15, "buffer-reuse", func(w *core.W, c *ReuseCase) {
+	if len(c.Texts) == 0 {
+		return
+	}
+	buf := make([]byte, len(c.Texts[0]))
+	for ti, t := range c.Texts {
+		if len(t) != len(buf) {
+			continue
+		}
+		copy(buf, t) // same backing array, new contents
+		w.Eval(1)
+		w.Count("buffer_reuse_texts")
+		for off := 0; off <= len(buf); off++ {
+			el, ec := directLineCol(buf, off)
+			var p2 formula.Position
+			panicked, pv := core.Call(func() { p2 = formula.PositionToLineAndCharacter(buf, off) })
+			if panicked || p2.Line != el || p2.Column != ec {
+				w.Violation("buffer-reuse", "C15/linetable-depends-on-earlier-text", c, fmt.Sprintf("(%d,%d)", el, ec), fmt.Sprint(p2, pv),
+					fmt.Sprintf("offset %d of text %d %q written into a buffer that held other texts before", off, ti, clipS(string(buf), 60)))
+				return
+			}
+		}
+		sc, err := formula.ParseSourceCode(buf)
+		if err != nil && sc != nil && len(sc.Diagnostics) > 0 {
+			el, ec := directLineCol(buf, sc.Diagnostics[0].Start)
+			if !strings.HasPrefix(err.Error(), fmt.Sprintf("pos(%d, %d) ", el, ec)) {
+				w.Violation("buffer-reuse", "C15/error-position-depends-on-earlier-text", c, fmt.Sprintf("pos(%d, %d) ...", el, ec), err.Error(),
+					fmt.Sprintf("text %d %q parsed from a reused buffer", ti, clipS(string(buf), 60)))
+				return
+			}
+		}
+	}
+	w.Nontrivial("reuse:" + string(bytes.Join(c.Texts, []byte{0})))
+})
+
 var lineSyms = []string{"a", "\n", "\r", "\u2028", "\u2029", "\u0085", "\u00e9"}
 
 func init() { c15.Run = runC15 }
@@ -414,6 +455,29 @@ func runC15(w *core.W) {
 				run("shape:"+sh.Name, gen.ShapeBytes(sh, n))
 			}
 		}
+	}
+	// one buffer reused for several texts of the same length (line breaks in different places)
+	rb := w.RNG("reuse")
+	for i, n := 0, w.Pick(4000, 60000); i < n; i++ {
+		l := 4 + rb.Intn(14)
+		c := &ReuseCase{}
+		for k := 0; k < 2+rb.Intn(3); k++ {
+			t := make([]byte, 0, l)
+			for len(t) < l {
+				switch rb.Intn(6) {
+				case 0:
+					t = append(t, '\n')
+				case 1:
+					t = append(t, '\r')
+				case 2:
+					t = append(t, " +"[rb.Intn(2)])
+				default:
+					t = append(t, "ab1()'"[rb.Intn(6)])
+				}
+			}
+			c.Texts = append(c.Texts, t)
+		}
+		c15Reuse(w, c)
 	}
 	// line table: exhaustive short texts, every offset
 	lmax := w.Pick(5, 8)
